@@ -124,7 +124,9 @@ MoveBack ==
   /\ pos' = stack[Len(stack)] /\ stack' = SubSeq(stack, 1, Len(stack) - 1)
   /\ AnyRes("do_navigate_command")
   /\ UNCHANGED <<ready, lang, code, highlight, expr, markers, file, checkAll, repointVer>>
-SetMarker == /\ ready /\ expr # NoExpr /\ markers' = markers \cup {pos} /\ MaybeLoad("speech") /\ AnyRes("do_navigate_command")
+\* (a place marker lives in a numbered slot: setting a slot that is in use drops the node it held)
+SetMarker == /\ ready /\ expr # NoExpr /\ (\E m \in markers \cup {NoNode} : markers' = (markers \ {m}) \cup {pos})
+             /\ MaybeLoad("speech") /\ AnyRes("do_navigate_command")
              /\ UNCHANGED <<ready, lang, code, highlight, expr, pos, stack, file, checkAll, repointVer>>
 GoToMarker(m) == /\ ready /\ expr # NoExpr /\ m \in markers
                  /\ MaybeLoad("speech")
